@@ -18,6 +18,23 @@ import time
 
 VERIF = os.path.dirname(os.path.dirname(os.path.abspath(__file__)))
 HARNESS_DIR = os.path.join(VERIF, "harness")
+# The registered checks always build against /repo.  For self-validation with seeded mutants
+# (tools/mutant_matrix.py) MQV_REPO points at a scratch worktree instead, so that several mutants
+# can be evaluated in parallel without touching /repo.
+REPO = os.environ.get("MQV_REPO", "/repo")
+
+
+def harness_dir_for(build_dir):
+    """/verif/harness itself, or (MQV_REPO set) a copy whose path dependency is rewritten"""
+    if REPO == "/repo":
+        return HARNESS_DIR
+    dst = os.path.join(build_dir, "harness_copy")
+    if not os.path.exists(dst):
+        shutil.copytree(HARNESS_DIR, dst, ignore=shutil.ignore_patterns("target"))
+        ct = os.path.join(dst, "Cargo.toml")
+        txt = open(ct).read().replace('path = "/repo"', 'path = "%s"' % REPO).replace('path = "../stubs/', 'path = "%s/stubs/' % VERIF)
+        open(ct, "w").write(txt)
+    return dst
 KANI_HOME = os.path.expanduser("~/.kani/kani-0.68.0")
 KANI_LIB_C = os.path.join(KANI_HOME, "library/kani/kani_lib.c")
 
@@ -33,7 +50,7 @@ CBMC_BASE_FLAGS = [
 
 def env_for_build():
     e = dict(os.environ)
-    e["RUSTFLAGS"] = "--cfg multiqueue2_verif"
+    e["RUSTFLAGS"] = "--cfg multiqueue2_verif" + (" --cfg mq_smoke" if os.environ.get("MQV_SMOKE") else "")
     e["CARGO_NET_OFFLINE"] = "true"
     return e
 
@@ -53,7 +70,7 @@ def codegen(build_dir, log_path, harnesses=None):
         cmd.append("--exact")
         for h in harnesses:
             cmd += ["--harness", R_path(h)]
-    p = run(cmd, cwd=HARNESS_DIR, env=env_for_build())
+    p = run(cmd, cwd=harness_dir_for(build_dir), env=env_for_build())
     with open(log_path, "w") as f:
         f.write(p.stdout)
     if p.returncode != 0:
